@@ -53,6 +53,7 @@ func runC10(c *Ctx) {
 	c.Rule("C10.R2", "WIRE", "handler looked up with the record type that is passed to it; handlers store their parameters", 2)
 	c.Rule("C10.R3", "WIRE", "PTR value is fully qualified", 1)
 	c.Rule("C10.R4", "PANIC", "parser functions: all index/slice operations in range", 1)
+	c.Rule("C10.R6", "WIRE", "a rule's rewrite is the parser's result for its own value (no cache or shared object in between)", 1)
 	c.Rule("C10.R5", "EFF", "parser writes no shared memory; handler table written only by its initialiser", 2)
 
 	a := &anchors{c: c, rule: "C10.R1"}
@@ -480,6 +481,61 @@ func runC10(c *Ctx) {
 			}
 		}
 		c.Check(bad == "", "C10.R4", "$dnsrewrite parser: all index/slice operations in range", ldr.Pos(), fmt.Sprintf("%d sites in %d functions", len(res), len(scope)), bad)
+	}
+
+	// ---------- R6: a rule's rewrite is the parse of its own value ----------
+	{
+		ws := fieldWrites(c.P, "rules", "NetworkRule", "DNSRewrite")
+		writers := map[*ssa.Function]bool{}
+		for _, w := range ws {
+			if !c.P.IsNewHelper(w.Fn) {
+				writers[w.Fn] = true
+				continue
+			}
+			for _, fn := range c.P.AllLibFuncs() {
+				if !c.P.IsNewHelper(fn) && helperGroup(c.P, fn)[w.Fn] {
+					writers[fn] = true
+				}
+			}
+		}
+		var fns []*ssa.Function
+		for fn := range writers {
+			fns = append(fns, fn)
+		}
+		sort.Slice(fns, func(i, j int) bool { return FuncName(fns[i]) < FuncName(fns[j]) })
+		if len(fns) == 0 {
+			c.Fail("C10.R6", "NetworkRule.DNSRewrite writers", ldr.Pos(), "UNDECIDED: no store to NetworkRule.DNSRewrite found")
+		}
+		for _, fn := range fns {
+			g := NewGate(c.P)
+			g.Inline = inlineOnly()
+			s := g.Eval(fn)
+			u := g.U
+			bad := ""
+			n := 0
+			for _, ef := range s.Effects {
+				if ef.Kind != "store" || ef.Addr.Op != "faddr" || ef.Addr.Aux != "DNSRewrite" || ef.Cond == False {
+					continue
+				}
+				n++
+				for leaf, lc := range u.Leaves(ef.Val) {
+					if u.bdd.And(lc, ef.Cond) == False || leaf.IsNil() {
+						continue
+					}
+					x := leaf
+					if x.Op == "extract" && len(x.Args) == 1 {
+						x = x.Args[0]
+					}
+					if x.Op == "call" && x.Aux == calleeName(ldr) {
+						continue
+					}
+					if bad == "" {
+						bad = c.P.Pos(ef.Pos) + ": the rule's rewrite is " + clip(u.Show(leaf), 100) + ", not the value parsed from its own modifier text by " + shortFn(ldr) + ": the result of parsing then depends on what was parsed before (cache, shared object), not only on the value"
+					}
+				}
+			}
+			c.Check(bad == "", "C10.R6", shortFn(fn)+": NetworkRule.DNSRewrite = "+shortFn(ldr)+"(value)", fn.Pos(), fmt.Sprintf("%d store(s): every value leaf is the parser's return value", n), bad)
+		}
 	}
 
 	// ---------- R5 ----------
